@@ -98,6 +98,8 @@ type World struct {
 	// privilege. KernelSame counts agreeing verdicts, KernelDiff lists disagreements, KernelErr is
 	// set when the comparison could not be made (then nothing is counted).
 	KernelBPF  bool
+	// Servers: the scripted TCP peers of the virtual network (vnet.go), by "ip:port"
+	Servers map[string]*VServer
 	KernelSame int
 	KernelDiff []string
 	KernelErr  error
